@@ -207,6 +207,14 @@ def gen_file(rng, dname):
 PADS = ["default", "default", "keep", "0", "1", "777", "20000", "-1"]
 
 
+def pad_arg_z(choice):
+    if choice == "default":
+        return None
+    if choice == "keep":
+        return lambda info: max(info.padding, 0)
+    return lambda info: int(choice)
+
+
 def classify(exc):
     from mutagen import MutagenError
     if isinstance(exc, MutagenError):
@@ -479,3 +487,176 @@ def run(ctx, only=None):
         if ans != impl:
             ctx.disagree("iff chunk file container", desc, model=ans[:200], impl=impl[:200])
     return ncases
+
+
+# ---------------------------------------------------------------------------------------
+# file-operation level: Model/Container/IffM.lean against the real code on fault-injecting / capacity-limited
+# file objects (C19, C06)
+
+def _set_buffers(size):
+    """substitute `size` for the 1 MiB copy buffer of the mutagen._util primitives (None: restore)"""
+    from mutagen import _util
+    funcs = [getattr(_util, n) for n in ("resize_file", "move_bytes", "insert_bytes", "delete_bytes", "resize_bytes")]
+    if not hasattr(_set_buffers, "saved"):
+        _set_buffers.saved = [f.__defaults__ for f in funcs]
+    for f, dflt in zip(funcs, _set_buffers.saved):
+        if size is not None and dflt:
+            f.__defaults__ = tuple(size if x == _util._DEFAULT_BUFFER_SIZE else x for x in dflt)
+        else:
+            f.__defaults__ = dflt
+
+
+def _small_plain(rng, d):
+    """a well-formed layout with at least one sub-chunk and small chunks"""
+    sizes = [0, 1, 2, 3, 7, 10, 21]
+    def ck(cid=None):
+        cid = cid or rng.choice(d["other"])
+        data = rbytes(rng, rng.choice(sizes))
+        if d["containers"].get(cid):
+            data = b"INFO" + data
+        return (cid, data, b"\0" * (len(data) % 2))
+    before = [ck() for _ in range(rng.choice([0, 1, 2]))]
+    after = [ck() for _ in range(rng.choice([0, 1, 2]))]
+    if rng.random() < 0.2:
+        (before if rng.random() < 0.5 else after).append(ck(rng.choice(list(d["containers"]))))
+    id3 = None
+    if rng.random() < 0.6:
+        blob = rbytes(rng, rng.choice([0, 1, 10, 11, 30, 45, 64]))
+        id3 = (rng.choice(d["id3"]), blob, (b"\0" if rng.random() < 0.8 else b"\x55") * (len(blob) % 2))
+    else:
+        before, after = before + after, []
+        if not before:
+            before = [ck()]
+    return dict(form=rng.choice(d["forms"]), before=before, id3=id3, after=after)
+
+
+def run_faults(ctx, only=None):
+    """the real save/delete on FaultFile (every capacity 0..growth, every call index) against the model's FileM programs:
+    same outcome class, same bytes, same position, same call log; plus the statements of C19 and C06 on the real outcome.
+    Returns the number of runs of the real code."""
+    from mutagen import id3 as I, MutagenError
+    from mutagen.id3._tags import ID3SaveConfig
+    from fobj import FaultFile
+    rng = ctx.rng
+    classes = tag_classes()
+    nlay = int(os.environ.get("VERIF_IFF_FAULT_LAYOUTS", "0")) or ctx.budget(4, 40)
+    reqs = []
+    runs = 0
+
+    def model_line(dname, op, data, extra, vmaj=None, frames=None, pad=None, B=None):
+        s = "iffm fmt=%s op=%s data=%s" % (dname, op, hx(data))
+        if op == "save":
+            s += " vmaj=%d frames=%s pad=%s" % (vmaj, hx(frames), pad)
+        if B:
+            s += " B=%d" % B
+        return s + extra
+
+    def answer(kind, res, f):
+        st = "ok" if kind == "ok" else classify(res)
+        return "%s data=%s pos=%d log=%s" % (st, hx(f.getvalue()), f.pos(), ",".join(f.log) or "-")
+
+    try:
+        for dname in (only or ["aiff", "wave", "dsdiff"]):
+            d = DIALECTS[dname]
+            cls, delete_fn = classes[dname]
+            for li in range(nlay):
+                lay = _small_plain(rng, d)
+                data = render_file(d, lay["form"], all_chunks(lay))
+                tagged = lay["id3"] is not None
+                B = rng.choice([None, None, 5, 16])
+                _set_buffers(B)
+                for op in ("save", "save", "delete"):
+                    if op == "save":
+                        tags = cls()
+                        for _ in range(rng.randrange(0, 3)):
+                            tags.add(rng.choice([I.TIT2, I.TPE1])(encoding=3, text=[rng.choice(["x", "", "abc" * 9])]))
+                        vmaj = rng.choice([3, 4])
+                        pad = rng.choice(["0", "0", "1", "keep", "default", "37"])
+                        frames = bytes(tags._write(ID3SaveConfig(vmaj, "/")))
+
+                        def go(f, tags=tags, vmaj=vmaj, pad=pad):
+                            tags.save(f, v2_version=vmaj, padding=pad_arg_z(pad))
+                        margs = dict(vmaj=vmaj, frames=frames, pad=pad, B=B)
+                    else:
+                        how = rng.choice(["function", "method"])
+
+                        def go(f, how=how):
+                            delete_fn(f) if how == "function" else cls().delete(f)
+                        margs = dict(B=B)
+                    base = dict(fmt=dname, op=op, tagged=tagged, data=hx(data), buffer=B, **({"vmaj": vmaj, "pad": pad, "frames_len": len(frames)} if op == "save" else {}))
+                    ref = FaultFile(data)
+                    k0, r0 = timed(lambda: go(ref), 20)
+                    runs += 1
+                    if k0 != "ok":
+                        ctx.violation("iff:%s:%s:raises" % (dname, op), "%r on a well-formed file" % (r0,), base)
+                        continue
+                    refb = ref.getvalue()
+                    n = ref.calls
+                    growth = len(refb) - len(data)
+                    ctx.hist["iffm:%s:%s" % (op, "tagged" if tagged else "untagged")] += 1
+                    reqs.append((model_line(dname, op, data, "", **margs), answer(k0, r0, ref), dict(base, env="clean")))
+                    # --- capacities: every value 0 .. growth (C19)
+                    if growth > 0:
+                        caps = range(growth + 1) if growth <= 70 else sorted(set([0, 1, 2, growth - 1, growth] + [rng.randrange(growth) for _ in range(30)]))
+                        for r in caps:
+                            for leak in (0, 3):
+                                f = FaultFile(data, cap=len(data) + r, leak=leak)
+                                k, res = timed(lambda: go(f), 20)
+                                runs += 1
+                                case = dict(base, remaining_capacity=r, growth=growth, leak=leak)
+                                ctx.case(key=("iffm", dname, li, op, "cap", r, leak), nontrivial=(r < growth), modelled=True)
+                                after = f.getvalue()
+                                if k == "hang":
+                                    ctx.violation("iff:%s:%s:hang" % (dname, op), "did not finish", case); continue
+                                if r >= growth:
+                                    if k != "ok" or after != refb:
+                                        ctx.violation("iff:%s:%s:fails-with-enough-space" % (dname, op), "the growth fits but the save failed or differs", case)
+                                elif k == "ok":
+                                    ctx.violation("iff:%s:%s:returns-normally-on-full-device" % (dname, op), "returned normally although the growth does not fit", case)
+                                elif not isinstance(res, MutagenError):
+                                    ctx.violation("iff:%s:%s:enospc-raises-%s" % (dname, op, type(res).__name__), "ENOSPC surfaced as %r" % (res,), case)
+                                elif tagged and after != data:
+                                    ctx.violation("iff:%s:%s:file-modified-on-enospc" % (dname, op), "existing ID3 chunk, failed save, file changed (%d -> %d bytes)" % (
+                                        len(data), len(after)), case)
+                                elif not tagged and after != data:
+                                    # a chunk had to be created: the other chunks intact, the file still well-formed (an empty ID3 chunk at most)
+                                    want = render_file(d, lay["form"], all_chunks(lay) + [(d["new"], b"", b"")])
+                                    if after != want:
+                                        ctx.violation("iff:%s:%s:payload-damaged-on-enospc" % (dname, op), "failed save into a file without ID3 chunk left neither the "
+                                                      "file as it was nor the file with an empty ID3 chunk", case)
+                                    else:
+                                        ctx.hist["iffm:enospc-after-chunk-created"] += 1
+                                reqs.append((model_line(dname, op, data, " cap=%d leak=%d" % (len(data) + r, leak), **margs), answer(k, res, f), case))
+                    # --- one I/O fault at every call index (C06)
+                    idx = range(n) if n <= 90 else sorted(set(list(range(30)) + list(range(n - 30, n)) + [rng.randrange(n) for _ in range(30)]))
+                    for i in idx:
+                        f = FaultFile(data, fail_at=i)
+                        k, res = timed(lambda: go(f), 20)
+                        runs += 1
+                        case = dict(base, fail_at=i, call=ref.log[i], calls=n)
+                        ctx.case(key=("iffm", dname, li, op, "fail", i), nontrivial=True, modelled=True)
+                        if k == "hang":
+                            ctx.violation("iff:%s:%s:hang" % (dname, op), "did not finish", case); continue
+                        if k == "ok":
+                            if f.getvalue() != refb:
+                                ctx.violation("iff:%s:%s:undetected-fault" % (dname, op), "returned normally after an I/O error with an incomplete file", case)
+                        elif not isinstance(res, MutagenError) and not (isinstance(res, ValueError) and i < 2):
+                            ctx.violation("iff:%s:%s:fault-raises-%s" % (dname, op, type(res).__name__), "I/O error at call %d (%s) surfaced as %r" % (i, ref.log[i], res), case)
+                        reqs.append((model_line(dname, op, data, " fail=%d:io" % i, **margs), answer(k, res, f), case))
+    finally:
+        _set_buffers(None)
+    answers = ask_model(ctx, [r[0] for r in reqs]) if reqs else None
+    if answers is None:
+        ctx.notes.append("iff_tie.run_faults: model driver unavailable, tie skipped")
+        return runs
+    if any(a == "bad-op" for a in answers):
+        ctx.notes.append("iff_tie.run_faults: the driver does not know the `iffm` command; tie skipped")
+        return runs
+    for (line, impl, case), ans in zip(reqs, answers):
+        if ans.startswith("err notimplemented"):
+            ctx.hist["iffm:outside-model"] += 1
+            continue
+        ctx.traces_validated += 1
+        if ans != impl:
+            ctx.disagree("iff file operations", case, model=ans[:600], impl=impl[:600])
+    return runs
